@@ -150,7 +150,14 @@ def fields(rng, r):
 
 
 def join(rng, f):
-    return ws(rng, 0) + b"".join(x + ws(rng, 1) for x in f[:-1]) + f[-1] + ws(rng, 0)
+    # fields are separated by white space, except that an opening parenthesis may follow a name directly (it ends the name)
+    out = ws(rng, 0)
+    for i, x in enumerate(f[:-1]):
+        out += x
+        if f[i + 1].startswith(b"(") and rng.random() < 0.4:
+            continue
+        out += ws(rng, 1)
+    return out + f[-1] + ws(rng, 0)
 
 
 def render(rng, r):
